@@ -141,6 +141,20 @@ def save(chk, prog, ln, m):
     chk.check(n_ok >= 1, "T-TABLE/%s/success-path" % key, "no successful save path explored")
 
 
+def paged_bank(r, what):
+    """the bank paged at 0xC000 as this path knows it: a constant when the path pinned it down, else its symbol"""
+    cands = set()
+    for t in list(r.facts.keys()) + [c[1] for c in r.pc if len(c) > 1 and isinstance(c[1], T)]:
+        for s_ in tm.syms(t):
+            if ("get_page" in s_ and s_.endswith(".Ram.0")):
+                cands.add(s_)
+    if len(cands) != 1:
+        return None
+    n = tm.sym(cands.pop(), 8)
+    f = r.facts.get(n)
+    return (tm.show(n), f.val if f is not None else None)
+
+
 def bank_order(chk, what, key, order, is48, r):
     if is48:
         chk.check(order == [0, 1, 2], "T-TABLE/%s/banks" % key, "48K %s handles RAM pages %s; documented 0,1,2" % (what, order))
@@ -149,6 +163,15 @@ def bank_order(chk, what, key, order, is48, r):
     tail = order[3:]
     n = head[2] if len(head) == 3 else None
     ok = head[:2] == [5, 2] and n is not None
+    if ok and what == "save":
+        # the third head bank is the bank paged at 0xC000 itself — also when that is bank 5 or 2 (written twice)
+        pb = paged_bank(r, what)
+        if pb is not None and n not in pb:
+            chk.fail("T-TABLE/%s/banks" % key, "128K save writes RAM banks %s with bank %s paged at 0xC000; documented 5, 2, paged bank (even when it is 5 or 2), then the others" % (
+                order, pb[1] if pb[1] is not None else pb[0]))
+            return
+        if pb is not None and pb[1] is not None:
+            n = pb[1]
     if ok:
         if isinstance(n, int):
             ok = tail == [b for b in (0, 1, 3, 4, 6, 7) if b != n]
